@@ -13,6 +13,11 @@ checks = []
 for pid in sorted(PROPS):
     P = PROPS[pid]
     tech = TECH + ("; Kani/CBMC harnesses #[path]-including the real files" if P.get("kani") or P.get("kani_thorough") else "")
+    gen = [u for u in P["units"] if u in ("locks", "serde")]
+    if gen:
+        tech += ("; in unit(s) %s the obligations are GENERATED per call site / per field from a syntactic scan of the source on every run "
+                 "(lock regions of engine.rs, #[serde(..)] attributes) and then discharged by Verus - the scan, not a proof over the "
+                 "function bodies, supplies those facts" % ", ".join(gen))
     checks.append({
         "property_id": pid,
         "quick_cmd": "./check %s --tier quick" % pid,
